@@ -96,6 +96,7 @@ func (f *singleNodeReader) Seek(offset int64, whence int) (int64, error) {
 		return 0, err
 	}
 
+	prev := f.offset
 	switch whence {
 	case io.SeekStart:
 		f.offset = int(offset)
@@ -105,6 +106,8 @@ func (f *singleNodeReader) Seek(offset int64, whence int) (int64, error) {
 		f.offset = len(buf) + int(offset)
 	}
 	if f.offset < 0 {
+		// a failed seek leaves the position where it was
+		f.offset = prev
 		return 0, io.EOF
 	}
 	return int64(f.offset), nil
